@@ -302,7 +302,7 @@ class GetElement(Family):
                 ctx.assume_forall("all.ok.rows", lambda q: z3.Implies(z3.And(0 <= q, q < m), z3.And(0 <= rw(q), rw(q) < n)))
                 ctx.prove("raises=>some-pair-missing", z3.BoolVal(False))
                 return
-            ctx.assume(z3.And(0 <= t, t < m))
+            ctx.skolem(z3.And(0 <= t, t < m))
             ctx.add_index(rw(t), R(t))
             ctx.prove("returns=>all-pairs-exist", ok(t))
             cw = z3.If(C(t) < 0, C(t) + g.L(rw(t)), C(t))
